@@ -20,6 +20,7 @@ import (
 //	ifinit-split   : `if x := e; c { ... }`                                           ->  `{ x := e; if c { ... } }`
 //	switch-to-if   : a tagless switch without fallthrough/break                       ->  an if / else-if chain
 //	ret-local      : `return f(x), nil`                                               ->  `r0_ := f(x); return r0_, nil`
+//	cond-local     : `if c { ... }` (not an else-if)                                    ->  `c1_ := c; if c1_ { ... }`
 //	arg-local      : `x := f(a, g(b))` / `f(a, g(b))`                                 ->  `a1_ := g(b); x := f(a, a1_)`
 var astSweeps = map[string]func(f *ast.File) int{
 	"guard-invert": sweepGuardInvert,
@@ -28,6 +29,7 @@ var astSweeps = map[string]func(f *ast.File) int{
 	"switch-to-if": sweepSwitchToIf,
 	"ret-local":    sweepRetLocal,
 	"arg-local":    sweepArgLocal,
+	"cond-local":   sweepCondLocal,
 }
 
 func cmdSweepAST(kind string) int {
@@ -386,6 +388,29 @@ func sweepArgLocal(f *ast.File) int {
 			}
 			if hoisted {
 				n++
+			}
+			out = append(out, s)
+		}
+		*list = out
+	})
+	return n
+}
+
+// sweepCondLocal names the condition of every if statement that stands in a statement list (an else-if would be evaluated
+// earlier than before, so those are left alone).
+func sweepCondLocal(f *ast.File) int {
+	n := 0
+	eachStmtList(f, func(owner ast.Node, list *[]ast.Stmt) {
+		var out []ast.Stmt
+		for _, s := range *list {
+			ifs, ok := s.(*ast.IfStmt)
+			if ok && ifs.Init == nil {
+				if _, plain := ast.Unparen(ifs.Cond).(*ast.Ident); !plain {
+					n++
+					id := ast.NewIdent(fmt.Sprintf("c%d_", n))
+					out = append(out, &ast.AssignStmt{Lhs: []ast.Expr{id}, Tok: token.DEFINE, Rhs: []ast.Expr{ifs.Cond}})
+					ifs.Cond = ast.NewIdent(id.Name)
+				}
 			}
 			out = append(out, s)
 		}
